@@ -67,27 +67,28 @@ fn check(key: &CoseKey, lenfirst: bool, ctx: &mut Ctx) -> CaseResult {
     Ok(())
 }
 
-const SUB_PALETTE: [i64; 7] = [6, 23, 24, 256, -1, -25, -257];
+const SUB_PALETTE: [i64; 9] = [6, 23, 24, 256, -1, -25, -257, -129, -256];
 const SUB_TEXTS: [&str; 2] = ["a", "aa"];
+const NSUB: usize = 11;
 
 fn sub_label(i: usize) -> Label {
-    if i < 7 {
+    if i < SUB_PALETTE.len() {
         Label::Int(SUB_PALETTE[i])
     } else {
-        Label::Text(SUB_TEXTS[i - 7].to_string())
+        Label::Text(SUB_TEXTS[i - SUB_PALETTE.len()].to_string())
     }
 }
 
-/// Enumerate all ordered selections (permutations of subsets) of size <= 5 from 9 labels.
+/// Enumerate all ordered selections (permutations of subsets) of size <= 4 from 11 labels.
 fn selections() -> &'static Vec<Vec<usize>> {
     static S: std::sync::OnceLock<Vec<Vec<usize>>> = std::sync::OnceLock::new();
     S.get_or_init(|| {
         let mut out = vec![vec![]];
         let mut frontier: Vec<Vec<usize>> = vec![vec![]];
-        for _ in 0..5 {
+        for _ in 0..4 {
             let mut next = vec![];
             for s in &frontier {
-                for i in 0..9 {
+                for i in 0..NSUB {
                     if !s.contains(&i) {
                         let mut t = s.clone();
                         t.push(i);
@@ -168,7 +169,10 @@ fn exh_case(idx: u64, ctx: &mut Ctx) -> CaseResult {
     }
 }
 
-const EXTRA_LABELS: &[i64] = &[0, 6, 7, 23, 24, 255, 256, 65535, 65536, -1, -2, -3, -4, -12, -24, -25, -256, -257, -65537, i64::MAX, i64::MIN];
+const EXTRA_LABELS: &[i64] = &[
+    0, 6, 7, 23, 24, 255, 256, 1000, 65535, 65536, 70000, 1 << 32, -1, -2, -3, -4, -12, -24, -25, -129, -200, -256, -257, -32769, -65536, -65537,
+    -(1 << 31) - 1, -(1 << 32), -(1 << 32) - 1, i64::MAX, i64::MIN,
+];
 const EXTRA_TEXTS: &[&str] = &["", "a", "b", "aa", "ab", "aaaaaaaaaaaaaaaaaaaaaaaa", "aaaaaaaaaaaaaaaaaaaaaaa", "é", "zz"];
 
 fn case(g: &mut Gen, ctx: &mut Ctx) -> CaseResult {
@@ -237,6 +241,21 @@ fn case(g: &mut Gen, ctx: &mut Ctx) -> CaseResult {
         }
         k
     };
+    // sometimes the key arrives already arranged by the *other* ordering (or by this one)
+    let mut key = key;
+    match g.below(6) {
+        0 | 1 => {
+            key.canonicalize(ordering(!lenfirst));
+            ctx.class("key:pre-arranged-by-other-ordering");
+        }
+        2 => {
+            key.canonicalize(ordering(lenfirst));
+            key.params.reverse();
+            ctx.class("key:pre-arranged-descending");
+        }
+        _ => {}
+    }
+    let key = key;
     ctx.class(if lenfirst { "ordering:length-first" } else { "ordering:lexicographic" });
     ctx.classf(format!("extras:{}", match key.params.len() { n @ 0..=8 => n.to_string(), 9..=32 => "9-32".to_string(), _ => ">32".to_string() }));
     let mut sorted = key.clone();
@@ -293,10 +312,10 @@ pub fn property() -> Property {
         id: "C20",
         title: "Canonicalising a key sorts its encoding and changes nothing else",
         rule: "well-formed keys (constructed: every subset of kid/alg/key_ops/Base IV x kty class x 0-8 extras (one case in six: 20-80 extras of mixed encoded lengths) from a palette of small, large, negative, extreme and text labels in a tape-drawn order; or decoded from styled bytes) x both orderings; \
-               exhaustive: every permutation of every subset of size <= 5 of a 9-label palette, and every subset of the typed fields; oracle: encoded keys strictly ascending under the ordering computed on own encodings, pair set unchanged, decoded key unchanged, idempotence, byte-stable re-encoding; in-memory keys that repeat a label among their extras: pair multiset, typed fields and idempotence; \
+               exhaustive: every permutation of every subset of size <= 4 of an 11-label palette (one- and two-byte integers of both signs incl. -129 and -256, texts), and every subset of the typed fields; oracle: encoded keys strictly ascending under the ordering computed on own encodings, pair set unchanged, decoded key unchanged, idempotence, byte-stable re-encoding; in-memory keys that repeat a label among their extras: pair multiset, typed fields and idempotence; \
                non-trivial = >= 2 extras that canonicalisation reorders, or extras together with typed fields; distinct by (key, ordering)",
         assumptions: &["orderings computed by the harness on its own deterministic encodings of the emitted map keys (strict reader)"],
-        exhaustive_domains: &["all permutations of all subsets (size <= 5) of 9 extra labels x 2 orderings", "all 16 subsets of the typed fields x 2 orderings", "explicit witnesses of the repaired label-0 defect"],
+        exhaustive_domains: &["all permutations of all subsets (size <= 4) of 11 extra labels x 2 orderings", "all 16 subsets of the typed fields x 2 orderings", "explicit witnesses of the repaired label-0 defect"],
         case,
         exh_count,
         exh_case,
